@@ -83,6 +83,9 @@ func (m *model) allowed(op *Op, id uint32) allowSet {
 	if k == "unknown" {
 		return ok("§4.1: unknown frame types are ignored", st)
 	}
+	if k == "ping" || k == "conn-wupd" || k == "conn-settings" {
+		return ok("a frame of the connection itself (PING, WINDOW_UPDATE or empty SETTINGS on stream 0): answered or absorbed, no stream is concerned", st)
+	}
 	if id == 0 || id%2 == 0 {
 		if k == "priority" && id != 0 {
 			return allowSet{OK: true, CE: []uint32{cProtocol}, Why: "PRIORITY on an even id (RFC silent)", Next: st}
@@ -423,7 +426,12 @@ func genC08(r *RNG, avoid bool) *SrvPlan {
 			continue
 		}
 		op := Op{Pad: -1, TableSize: -1, StreamRef: id}
-		switch r.Intn(14) {
+		switch r.Intn(15) {
+		case 14:
+			// a frame of the connection itself (stream 0): nothing to react to, unless a header block is open
+			op.Kind = Pick(r, "ping", "conn-wupd", "conn-settings")
+			op.StreamRef = 0
+			id = 0
 		case 0, 1, 2, 3:
 			op.Kind = "headers"
 			if id < next && r.Intn(3) != 0 {
@@ -494,7 +502,11 @@ func genC08(r *RNG, avoid bool) *SrvPlan {
 				op.JunkFlags = undefined[r.Intn(len(undefined))]
 			}
 		}
-		used = append(used, id)
+		if id != 0 {
+			used = append(used, id)
+		} else {
+			used = append(used, next) // keeps used and l.Ops in step
+		}
 		l.Ops = append(l.Ops, op)
 	}
 	p.Lanes = []Lane{l}
@@ -559,6 +571,12 @@ func (w *SrvWorld) c08Encode0(op *Op, idx int) []byte {
 		return w.fw.Priority(id, dep, false, 10)
 	case "unknown":
 		return w.fw.Raw(op.RawType, 0, id, make([]byte, op.RawLen))
+	case "ping":
+		return w.fw.Ping(false, [8]byte{'w', 'a', 'l', 'k', byte(idx), 0, 0, 0})
+	case "conn-wupd":
+		return w.fw.WindowUpdate(0, 1)
+	case "conn-settings":
+		return w.fw.Settings()
 	}
 	return nil
 }
